@@ -5,9 +5,9 @@
 #include <sys/stat.h>
 
 enum { SW_LOCALS, SW_BLOCKLOCALS, SW_LIT, SW_STRINGS, SW_FUNCS, SW_GLOBALS, SW_INHERITS, SW_CLASSES, SW_MEMBERS, SW_SWITCH, SW_INCDEPTH, SW_IFDEPTH, SW_EXPAND, SW_LINELEN, SW_NEST, SW_LITERAL,
-  SW_CODESIZE, SW_OVERRIDE, SW_MANYLITS, SW_SWITCHSTR, SW_NFAM };
+  SW_CODESIZE, SW_OVERRIDE, SW_MANYLITS, SW_SWITCHSTR, SW_ABORT, SW_NFAM };
 static const char *famname[] = { "locals", "blocklocals", "funlit", "strings", "functions", "globals", "inherits", "classes", "members", "switch", "include-depth", "if-depth",
-  "macro-expansions", "line-length", "nesting", "literal", "code-size", "override", "many-funlits", "switch-string-sizes" };
+  "macro-expansions", "line-length", "nesting", "literal", "code-size", "override", "many-funlits", "switch-string-sizes", "abort-inside-open-construct" };
 typedef struct { int fam, a, b, c, d; } scase;
 static scase *cases; static long ncases, capcases;
 static void add (int fam, int a, int b, int c, int d) {
@@ -112,6 +112,8 @@ void sweep_prepare (int thorough) {
   for (int k = 65533; k <= 65537; k++) add (SW_MANYLITS, k, 0, 0, 0);
   for (int k = 32766; k <= 32769; k++) add (SW_MANYLITS, k, 0, 0, 0);
   add (SW_MANYLITS, 1, 0, 0, 0); add (SW_MANYLITS, 300, 0, 0, 0);
+  /* the compile is left before the lexer reaches the end of the file (a = how) while a construct is open (b = which) */
+  for (int a = 0; a < 4; a++) for (int b = 0; b < 10; b++) add (SW_ABORT, a, b, 0, 0);
   /* string-switch tables are sorted by the labels' addresses: labels of very different lengths live far apart */
   for (int k = 2; k <= 8; k++) for (int order = 0; order < 2; order++) add (SW_SWITCHSTR, k, order, 0, 0);
   if (thorough) {
@@ -364,6 +366,33 @@ int sweep_gen (long idx, sb_t *o, char *desc, size_t dlen) {
       sb_puts (o, "  case \""); sb_printf (o, "k%d", j); repc (o, 'a' + j, lens[j]); sb_printf (o, "\": return %d;\n", j);
     }
     sb_puts (o, "  }\n  return -1;\n}\n");
+    break;
+  }
+  case SW_ABORT: {
+    /* how the compile is left early: 0 inherit of a program that is not loaded (the parser accepts at once and the file is compiled
+       again later), 1 lexer gives up: illegal text-block terminator, 2 lexer gives up: line too long, 3 lexer gives up: # command without argument */
+    static const char *open_[] = { "#if 1\n", "#if 0\nint skipped;\n#else\n", "#ifndef NOT_DEFINED_ANYWHERE\n#ifdef __LPC__\n", "", "mixed g = (: 1 +\n", "int f(int a0, int a1) {\n  int l0, l1, l2;\n  l0 = a0;\n",
+                                   "class cc {\n  int m0;\n", "int f(int a) {\n  switch (a) {\n  case 1:\n", "#define CALL(x, y) ((x) + (y))\nint g = CALL(1,\n", "int f(mixed *arr) {\n  foreach (mixed e in arr) {\n    {\n      int deep;\n" };
+    static const char *close_[] = { "#endif\n", "#endif\n", "#endif\n#endif\n", "", "2 :);\n", "  return l0;\n}\n", "  int m1;\n}\n", "    return 2;\n  }\n  return 0;\n}\n", "2);\n", "    }\n  }\n  return 0;\n}\n" };
+    char ab[1400];
+    if (c.a == 0) snprintf (ab, sizeof ab, "inherit \"/c02/sw/i%03d\";\n", 100 + c.b * 4 + c.a);
+    else if (c.a == 1) snprintf (ab, sizeof ab, "string s = @ \n");
+    else if (c.a == 2) { memset (ab, 'q', 1200); memcpy (ab, "int ", 4); ab[1200] = ';'; ab[1201] = '\n'; ab[1202] = 0; }
+    else snprintf (ab, sizeof ab, "#ifdef\n");
+    if (c.b == 3) {            /* the abort happens inside an include file, two levels down */
+      char nm[64], path[PATH_MAX];
+      snprintf (nm, sizeof nm, "c02/sw/abort_%d.h", c.a);
+      snprintf (path, sizeof path, "%s/%s", c02_lib, nm);
+      FILE *f = fopen (path, "w"); if (f) { fputs ("int in_header_before;\n", f); fputs (ab, f); fputs ("int in_header_after;\n", f); fclose (f); }
+      snprintf (nm, sizeof nm, "c02/sw/abort_outer_%d.h", c.a);
+      snprintf (path, sizeof path, "%s/%s", c02_lib, nm);
+      f = fopen (path, "w"); if (f) { fprintf (f, "#if 1\n#include \"abort_%d.h\"\n#endif\n", c.a); fclose (f); }
+      sb_printf (o, "int before;\n#include \"sw/abort_outer_%d.h\"\nint after;\n", c.a);
+    } else {
+      if (c.a == 0 && c.b >= 4) sb_puts (o, "");           /* an inherit in the middle of a construct is a syntax error as well */
+      sb_puts (o, open_[c.b]); sb_puts (o, ab); sb_puts (o, close_[c.b]);
+    }
+    sb_puts (o, "int tail() { return 1; }\n");
     break;
   }
   case SW_OVERRIDE:
